@@ -135,6 +135,16 @@ let () = register "rle_hostile" (fun a ->
   out_int "touched" (len st);
   out_nlist "out" st)
 
+let () = register "rle_hostile_hdr" (fun a ->
+  let b = bytes_of_hex a.(0) in
+  let cap = n_of_string a.(1) in
+  let r = rle_decode_with_header b cap in
+  out_rres_len "ret" r;
+  out_str "guard" "ok";
+  let st = rle_stores r in
+  out_int "touched" (len st);
+  out_nlist "out" st)
+
 let () = register "rle_rc" (fun a ->
   let b = bytes_of_hex a.(0) in
   out_optn "rc" (rle_get_run_count b (n_of_int (len b))))
